@@ -173,7 +173,7 @@ static inline _Bool q_ok(const Q *q) { return Q_OK_M(q); }
 #define Q_SMALL(q) ((q)->queueList.len < (1L << 40) && (q)->freeList.len < (1L << 40) && (q)->queueListConditionVariable.notified < (1 << 29) && (q)->queueEmptyCounter < 1000 && (q)->queueNotifyCounter < 1000)
 #define Q_MID(q) ((q)->queueList.len < (1L << 61) && (q)->freeList.len < (1L << 61) && (q)->queueListConditionVariable.notified < (1 << 29))
 /* window: the queue object; the ghost guards of its lists are its own mutexes (pointer_equals: value sets) */
-#define Q_FRESH(s) (__CPROVER_is_fresh(s, sizeof(Q)) && __CPROVER_pointer_equals((s)->queueList.guard, &(s)->queueListMutex) && __CPROVER_pointer_equals((s)->freeList.guard, &(s)->freeListMutex))
+#define Q_FRESH(s) (__CPROVER_is_fresh(s, sizeof(Q)) && (s)->queueListMutex.kind == 1 && (s)->freeListMutex.kind == 2 && __CPROVER_pointer_equals((s)->queueList.guard, &(s)->queueListMutex) && __CPROVER_pointer_equals((s)->freeList.guard, &(s)->freeListMutex))
 #define NOLOCKS(q) ((q)->queueListMutex.depth == 0 && (q)->freeListMutex.depth == 0)
 #define INLIST(q, k) ((q)->queueList.w[k] >= 0 || (q)->freeList.w[k] >= 0)
 #define GHOSTS g_S[0], g_S[1], g_anon, g_cons[0], g_cons[1], g_argid[0], g_argid[1], g_disp[0], g_disp[1], g_seq, g_dseq[0], g_dseq[1], g_born[0], g_born[1], g_taken[0], g_taken[1], g_dead[0], g_dead[1], g_rm_list, g_rm_idx, g_ins_list, g_ins_idx
@@ -194,7 +194,11 @@ static inline _Bool q_ok(const Q *q) { return Q_OK_M(q); }
  *   non-empty (C11).
  * ensures: G again; slots the caller has taken out of the shared lists (in flight) are untouchable. */
 #define QQ ((Q *)self)
-extern _Bool g_in_processing;
+#ifdef OB_PROCESSING
+#define g_in_processing 1
+#else
+#define g_in_processing 0
+#endif
 #define DD_K(k) (a0 == &g_S[k].buffer.event)
 #define CONTRACT_DispatcherBase_directDispatch \
   __CPROVER_requires(NOLOCKS(QQ) && q_ok(QQ)) \
@@ -252,13 +256,15 @@ extern _Bool g_in_processing;
  * statement: every event queued when the call takes the batch is dispatched exactly once, in queue order, exactly as
  * it was enqueued; its slot is recycled; events enqueued meanwhile stay queued; result = "dispatched something";
  * the queue reports non-empty while the batch is in flight (queueEmptyCounter, C11) and the counter is restored. */
+/* window of a processing obligation: at entry every existing witness slot is in one of the shared lists */
+#define ALL_IN_LISTS(q) ((!g_born[0] || g_dead[0] || INLIST(q, 0)) && (!g_born[1] || g_dead[1] || INLIST(q, 1)))
 #define INFLIGHT(q, k) ((q)->queueList.w[k] < 0 && (q)->freeList.w[k] < 0)
 #define DONE_M(k) (g_born[k] && !g_dead[k] && g_disp[k] == 1 && !g_cons[k] && g_S[k].dtor == NULL && !g_taken[k] && g_dseq[k] <= g_seq)
 #define PROC_W(T, i, k) ((T).w[k] >= 0 ==> (INFLIGHT(self, k) && ((T).w[k] < (i) ? DONE_M(k) : SLOT_QUEUED_M(k))))
 #define PROC_FIFO(T, i) (((T).w[0] >= 0 && (T).w[1] >= 0 && (T).w[0] < (T).w[1] && (T).w[1] < (i)) ==> g_dseq[0] < g_dseq[1]) && \
                         (((T).w[0] >= 0 && (T).w[1] >= 0 && (T).w[1] < (T).w[0] && (T).w[0] < (i)) ==> g_dseq[1] < g_dseq[0])
 #define LOOP_CONTRACT_Q_process__loop0 \
-  __CPROVER_assigns(__begin_L0.i, self->queueList, self->freeList, self->queueListConditionVariable.notified, GHOSTS) \
+  __CPROVER_assigns(__begin_L0.i, self->queueList.len, self->queueList.w, self->freeList.len, self->freeList.w, self->queueListConditionVariable.notified, GHOSTS) \
   __CPROVER_loop_invariant(0 <= __begin_L0.i && __begin_L0.i <= tempList.len) \
   __CPROVER_loop_invariant(NOLOCKS(self) && Q_OK_M(self) && Q_MID(self)) \
   __CPROVER_loop_invariant(PROC_W(tempList, __begin_L0.i, 0) && PROC_W(tempList, __begin_L0.i, 1)) \
@@ -267,7 +273,7 @@ extern _Bool g_in_processing;
 #define PROC_POST(k) (__CPROVER_old(self->queueList.w[k]) >= 0 ==> (DONE_M(k) && self->freeList.w[k] >= 0))
 #define CONTRACT_Q_process \
   __CPROVER_requires(Q_FRESH(self)) \
-  __CPROVER_requires(NOLOCKS(self) && q_ok(self) && Q_SMALL(self) && g_in_processing) \
+  __CPROVER_requires(NOLOCKS(self) && q_ok(self) && Q_SMALL(self) && ALL_IN_LISTS(self)) \
   __CPROVER_requires(g_b0 == (self->queueList.w[0] >= 0 && self->queueList.w[1] >= 0 && self->queueList.w[0] < self->queueList.w[1])) \
   __CPROVER_requires(g_b1 == (self->queueList.w[0] >= 0 && self->queueList.w[1] >= 0 && self->queueList.w[1] < self->queueList.w[0])) \
   __CPROVER_assigns(self->queueList, self->freeList, self->queueListMutex.depth, self->freeListMutex.depth, self->queueEmptyCounter, self->queueListConditionVariable.notified, GHOSTS) \
@@ -294,7 +300,7 @@ extern _Bool g_in_processing;
 #define P1_FRONT(k) (__CPROVER_old(self->queueList.w[k]) == 0 ==> (DONE_M(k) && self->freeList.w[k] >= 0))
 #define CONTRACT_Q_processOne \
   __CPROVER_requires(Q_FRESH(self)) \
-  __CPROVER_requires(NOLOCKS(self) && q_ok(self) && Q_SMALL(self) && g_in_processing) \
+  __CPROVER_requires(NOLOCKS(self) && q_ok(self) && Q_SMALL(self) && ALL_IN_LISTS(self)) \
   __CPROVER_assigns(self->queueList, self->freeList, self->queueListMutex.depth, self->freeListMutex.depth, self->queueEmptyCounter, self->queueListConditionVariable.notified, GHOSTS) \
   __CPROVER_ensures(NOLOCKS(self) && q_ok(self) && self->queueEmptyCounter == __CPROVER_old(self->queueEmptyCounter)) \
   __CPROVER_ensures(__CPROVER_return_value == (__CPROVER_old(self->queueList.len) > 0)) \
@@ -375,7 +381,7 @@ extern int g_pred[2]; extern _Bool g_verdict[2];
 #define PIF_ORDER ((__CPROVER_loop_entry(tempList.w[0]) >= 0 && __CPROVER_loop_entry(tempList.w[1]) >= 0 && tempList.w[0] >= 0 && tempList.w[1] >= 0) ==> \
                    ((__CPROVER_loop_entry(tempList.w[0]) < __CPROVER_loop_entry(tempList.w[1])) == (tempList.w[0] < tempList.w[1])))
 #define PIF_LOOP \
-  __CPROVER_assigns(it, tempList, idleList, self->queueList, self->freeList, self->queueListConditionVariable.notified, GHOSTS, g_pred[0], g_pred[1]) \
+  __CPROVER_assigns(it, tempList.len, tempList.w, idleList.len, idleList.w, self->queueList.len, self->queueList.w, self->freeList.len, self->freeList.w, self->queueListConditionVariable.notified, GHOSTS, g_pred[0], g_pred[1]) \
   __CPROVER_loop_invariant(it.l == &tempList && 0 <= it.i && it.i <= tempList.len && WL_OK_M(tempList) && WL_OK_M(idleList)) \
   __CPROVER_loop_invariant(tempList.len + idleList.len == __CPROVER_loop_entry(tempList.len)) \
   __CPROVER_loop_invariant(NOLOCKS(self) && Q_OK_M(self) && Q_MID(self)) \
@@ -392,7 +398,7 @@ extern int g_pred[2]; extern _Bool g_verdict[2];
                    : (SLOT_QUEUED_M(k) && self->queueList.w[k] >= 0 && self->queueList.w[k] <= __CPROVER_old(self->queueList.w[k])))))
 #define PIF_CONTRACT \
   __CPROVER_requires(Q_FRESH(self) && __CPROVER_is_fresh(predictor, sizeof(*predictor))) \
-  __CPROVER_requires(NOLOCKS(self) && q_ok(self) && Q_SMALL(self) && g_in_processing && g_pred[0] == 0 && g_pred[1] == 0) \
+  __CPROVER_requires(NOLOCKS(self) && q_ok(self) && Q_SMALL(self) && ALL_IN_LISTS(self) && g_pred[0] == 0 && g_pred[1] == 0) \
   __CPROVER_requires(g_b0 == (self->queueList.w[0] >= 0 && self->queueList.w[1] >= 0 && self->queueList.w[0] < self->queueList.w[1])) \
   __CPROVER_requires(g_b1 == (self->queueList.w[0] >= 0 && self->queueList.w[1] >= 0 && self->queueList.w[1] < self->queueList.w[0])) \
   __CPROVER_assigns(self->queueList, self->freeList, self->queueListMutex.depth, self->freeListMutex.depth, self->queueEmptyCounter, self->queueListConditionVariable.notified, GHOSTS, g_pred[0], g_pred[1]) \
@@ -413,7 +419,7 @@ extern int g_pred[2]; extern _Bool g_verdict[2];
 /* everything already dispatched was queued ahead of everything still waiting */
 #define PUN_PREFIX(a, b) ((idleList.w[a] >= 0 && tempList.w[b] >= 0) ==> __CPROVER_loop_entry(tempList.w[a]) < __CPROVER_loop_entry(tempList.w[b]))
 #define PUN_LOOP \
-  __CPROVER_assigns(it, tempList, idleList, self->queueList, self->freeList, self->queueListConditionVariable.notified, GHOSTS, g_pred[0], g_pred[1]) \
+  __CPROVER_assigns(it, tempList.len, tempList.w, idleList.len, idleList.w, self->queueList.len, self->queueList.w, self->freeList.len, self->freeList.w, self->queueListConditionVariable.notified, GHOSTS, g_pred[0], g_pred[1]) \
   __CPROVER_loop_invariant(it.l == &tempList && 0 <= it.i && it.i <= tempList.len && WL_OK_M(tempList) && WL_OK_M(idleList)) \
   __CPROVER_loop_invariant(tempList.len + idleList.len == __CPROVER_loop_entry(tempList.len)) \
   __CPROVER_loop_invariant(NOLOCKS(self) && Q_OK_M(self) && Q_MID(self)) \
@@ -427,7 +433,7 @@ extern int g_pred[2]; extern _Bool g_verdict[2];
 #define STAYED(k) (self->queueList.w[k] >= 0 && !(g_pred[k] == 1 && !g_verdict[k]))
 #define CONTRACT_Q_processUntil__UserPred \
   __CPROVER_requires(Q_FRESH(self) && __CPROVER_is_fresh(predictor, sizeof(*predictor))) \
-  __CPROVER_requires(NOLOCKS(self) && q_ok(self) && Q_SMALL(self) && g_in_processing && g_pred[0] == 0 && g_pred[1] == 0) \
+  __CPROVER_requires(NOLOCKS(self) && q_ok(self) && Q_SMALL(self) && ALL_IN_LISTS(self) && g_pred[0] == 0 && g_pred[1] == 0) \
   __CPROVER_requires(g_b0 == (self->queueList.w[0] >= 0 && self->queueList.w[1] >= 0 && self->queueList.w[0] < self->queueList.w[1])) \
   __CPROVER_requires(g_b1 == (self->queueList.w[0] >= 0 && self->queueList.w[1] >= 0 && self->queueList.w[1] < self->queueList.w[0])) \
   __CPROVER_assigns(self->queueList, self->freeList, self->queueListMutex.depth, self->freeListMutex.depth, self->queueEmptyCounter, self->queueListConditionVariable.notified, GHOSTS, g_pred[0], g_pred[1]) \
@@ -443,7 +449,7 @@ extern int g_pred[2]; extern _Bool g_verdict[2];
  * processing work" -- whatever the object's storage held before (*self is completely unconstrained here) */
 #define QCTOR_POST (self->queueEmptyCounter == 0 && self->queueNotifyCounter == 0 && self->queueList.len == 0 && self->freeList.len == 0 && \
                     self->queueList.w[0] < 0 && self->queueList.w[1] < 0 && self->freeList.w[0] < 0 && self->freeList.w[1] < 0 && NOLOCKS(self) && self->queueListConditionVariable.notified == 0 && \
-                    self->queueList.guard == &self->queueListMutex && self->freeList.guard == &self->freeListMutex)
+                    self->queueList.guard == &self->queueListMutex && self->freeList.guard == &self->freeListMutex && self->queueListMutex.kind == 1 && self->freeListMutex.kind == 2)
 #define CONTRACT_DispatcherBase_ctor __CPROVER_assigns(self->opaque)
 #define CONTRACT_DispatcherBase_ctor_copy __CPROVER_assigns(self->opaque)
 #define CONTRACT_DispatcherBase_ctor_move __CPROVER_assigns(self->opaque, a0->opaque)
@@ -502,3 +508,49 @@ extern int g_pred[2]; extern _Bool g_verdict[2];
   __CPROVER_assigns(self->queue->queueNotifyCounter, self->queue->queueListConditionVariable.notified, self->queue->queueListMutex.depth, g_dirty) \
   __CPROVER_ensures(NOLOCKS(self->queue) && self->queue->queueNotifyCounter == __CPROVER_old(self->queue->queueNotifyCounter) - 1) \
   __CPROVER_ensures(CANPROC(self->queue) ==> self->queue->queueListConditionVariable.notified == __CPROVER_old(self->queue->queueListConditionVariable.notified) + 1)   /* pending events + last guard gone => a waiter is woken */
+
+
+/* ================================================================== C11: never reported empty while an event is pending or in dispatch
+ * (a) sequential: the listener / predicate stubs REQUIRE queueEmptyCounter >= 1 when called from a processing call.
+ * (b) guarantee side of the concurrent half: whenever a processing call releases queueListMutex, every event it has
+ *     taken out of queueList and not finished yet is covered by queueEmptyCounter >= 1 (checked at each unlock). */
+#undef MUTEX_MEMBER_INIT
+#define KIND_OF_queueListMutex 1
+#define KIND_OF_freeListMutex 2
+#define KIND_OF_listenerMutex 3
+#define MUTEX_MEMBER_INIT(m, s, name) do { (m)->depth = 0; (m)->kind = KIND_OF_##name; } while (0)
+#define C11_COVERED(q, k) (!(g_born[k] && !g_dead[k] && INFLIGHT(q, k) && g_cons[k] && g_disp[k] == 0 && !g_taken[k]) || (q)->queueEmptyCounter >= 1)
+static inline void queue_unlock_hook(Mutex *m)
+{
+#ifdef OB_PROCESSING
+  if (m->kind == 1) {
+    Q *q = (Q *)((char *)m - __builtin_offsetof(Q, queueListMutex));
+    __CPROVER_assert(C11_COVERED(q, 0) && C11_COVERED(q, 1), "C11: an event taken out of queueList by a processing call is covered by queueEmptyCounter >= 1 when queueListMutex is released");
+  }
+#endif
+  mutex_unlock_(m);
+}
+#undef MUTEX_UNLOCK
+#define MUTEX_UNLOCK(m) queue_unlock_hook(m)
+
+/* (c) observer side of the concurrent half (-DMODE_CONC): emptyQueue() with other threads running between its two
+ * unlocked reads.  ghost g_w11 = state of ONE ARBITRARY event whose enqueue completed before the call:
+ * 1 queued (in queueList), 2 in flight in a process/processOne call, 3 consumed (dispatch returned / taken / cleared).
+ * rely R (what process, processOne, takeEvent, clearEvents, enqueue do, each shown above to respect it): the state
+ * only advances; queued => queueList non-empty; in flight => queueEmptyCounter >= 1. */
+extern int g_w11;
+#define G11(q) ((g_w11 == 1 ==> (q)->queueList.len > 0) && (g_w11 == 2 ==> (q)->queueEmptyCounter >= 1) && g_w11 >= 1 && g_w11 <= 3)
+#ifdef MODE_CONC
+#define CONTRACT_interfere_q \
+  __CPROVER_requires(G11(q)) \
+  __CPROVER_assigns(q->queueList.len, q->queueList.w, q->freeList.len, q->freeList.w, q->queueEmptyCounter, q->queueNotifyCounter, g_w11) \
+  __CPROVER_ensures(G11(q) && g_w11 >= __CPROVER_old(g_w11))
+void interfere_q(Q *q) CONTRACT_interfere_q;
+#undef INTERFERE_POINT
+#define INTERFERE_POINT(s) interfere_q(s)
+#undef CONTRACT_Q_emptyQueue
+#define CONTRACT_Q_emptyQueue \
+  __CPROVER_requires(Q_FRESH(self) && G11(self)) \
+  __CPROVER_assigns(self->queueList.len, self->queueList.w, self->freeList.len, self->freeList.w, self->queueEmptyCounter, self->queueNotifyCounter, g_w11) \
+  __CPROVER_ensures(__CPROVER_return_value ==> g_w11 == 3)     /* reported empty => the event has been fully consumed */
+#endif
